@@ -159,6 +159,8 @@ class Module(object):
         self.relpath = relpath
         self.src = src
         self.tree = ast.parse(src, filename=path)
+        from sa import alpha
+        self.alpha_renames = alpha.normalise(self.tree, relpath)
         self.bindings = {}   # name -> list of binding tuples
         self.body = []       # py3 view, flattened top-level statements
         for parent in ast.walk(self.tree):
